@@ -52,14 +52,13 @@ def _compile(name, stmts, local_names, fn, filename, allow_return):
         vararg=None,
         defaults=[],
     )
+    # fall-through result: the current locals by name (a local the real code deleted - `del kpure` - is reported
+    # as None instead of failing the piece)
     ret = ast.Return(
         value=ast.Tuple(
             elts=[
                 ast.Constant(value="fallthrough"),
-                ast.Dict(
-                    keys=[ast.Constant(value=n) for n in local_names],
-                    values=[ast.Name(id=n, ctx=ast.Load()) for n in local_names],
-                ),
+                ast.Call(func=ast.Name(id="__vt_pick__", ctx=ast.Load()), args=[ast.Call(func=ast.Name(id="locals", ctx=ast.Load()), args=[], keywords=[])], keywords=[]),
             ],
             ctx=ast.Load(),
         )
@@ -79,7 +78,7 @@ def _compile(name, stmts, local_names, fn, filename, allow_return):
     ns: dict = {}
     # closure variables of fn are made visible as globals of the piece (read-only use); everything else is
     # looked up in the module's LIVE globals (so stubs patched later are seen)
-    glb = {"__builtins__": g.get("__builtins__", __builtins__)}
+    glb = {"__builtins__": g.get("__builtins__", __builtins__), "__vt_pick__": (lambda d, names=tuple(local_names): {n: d.get(n) for n in names})}
     if fn.__closure__:
         for n, cell in zip(fn.__code__.co_freevars, fn.__closure__):
             try:
